@@ -158,12 +158,33 @@ def run_shard(ctx):
                         sig = dict(sig, statement=type(tree).__name__)
                         det.update({'text': text[:400], 'parse_dialect': dialect, 'render_dialect': name, 'method': method, 'failback': failback})
                         acc.fail(sig, det)
-                # fallback-taken counter: off raises an allowed error while on returned a string
+                # fallback taken (off raises an allowed error while on returns a string): the string is the tree's own SQL
                 o_off = contract(r, tree.copy(), 'get_string', False)[0]
                 if o_off == 'unsupported':
                     o_on = contract(r, tree.copy(), 'get_string', True)[0]
                     if o_on == 'rendered':
                         acc.count('fallback_taken')
+                        try:
+                            own = tree.copy().to_string()
+                            got = r.get_string(tree.copy(), with_failback=True)
+                            if got not in (own, own.replace('`', '')):
+                                acc.fail({'kind': 'fallback-is-not-the-trees-own-sql', 'statement': type(tree).__name__},
+                                         {'text': text[:300], 'render_dialect': name, 'fallback_result': got[:300], 'own_sql': own[:300]})
+                        except Exception:
+                            pass
+            # two names of one dialect (postgres / postgresql, oracle / Snowflake) give the same result
+            if bi % 4 == 0 or label == 'extra':
+                for a_name, b_name in (('postgresql', 'postgres'), ('oracle', 'Snowflake')):
+                    outs = []
+                    for nm in (a_name, b_name):
+                        try:
+                            outs.append(('ok', renders[nm].get_string(tree.copy(), with_failback=False)))
+                        except Exception as e:
+                            outs.append(('raised', type(e).__name__))
+                    acc.count('alias_name_pairs')
+                    if outs[0] != outs[1]:
+                        acc.fail({'kind': 'dialect-alias-renders-differently', 'pair': a_name + '/' + b_name, 'statement': type(tree).__name__},
+                                 {'text': text[:300], a_name: repr(outs[0])[:300], b_name: repr(outs[1])[:300]})
                 if type(tree).__name__ == 'CreateTable':
                     acc.key(text, name, 'create-table')
             if len(acc.samples) < 5 and idx % 41 == 0:
